@@ -139,7 +139,7 @@ def ensure_facts(repo=None, config="default"):
 class Body:
     __slots__ = ("f", "j", "id", "kind", "file", "line", "name", "blocks", "locals", "argc", "nblocks",
                  "succ", "pred", "_rpo", "_idom", "_ipdom", "_domdepth", "exits", "_loops", "impl_self_s",
-                 "impl_trait", "trait_item", "parent", "vis", "_defs", "_tyl")
+                 "impl_trait", "trait_item", "parent", "vis", "_defs", "_live_in", "_tyl")
 
     def __init__(self, facts, j):
         self.f = facts
@@ -158,7 +158,7 @@ class Body:
         self.parent = j.get("parent")
         self.vis = j.get("vis")
         self.nblocks = len(self.blocks)
-        self._rpo = self._idom = self._ipdom = self._loops = self._defs = None
+        self._rpo = self._idom = self._ipdom = self._loops = self._defs = self._live_in = None
         self._build_cfg()
 
     # -- CFG (cleanup blocks and unwind edges excluded: panics are what we look for, not what we follow)
@@ -398,6 +398,78 @@ class Body:
                     d.setdefault(t["dest"]["l"], []).append((i, "term"))
             self._defs = d
         return self._defs
+
+    @property
+    def live_in(self):
+        """block -> frozenset of locals live on entry (classic backward liveness over whole locals; a write through a
+        projection counts as a use of the root, a borrow as a use).  Used to drop facts about dead temporaries."""
+        if self._live_in is not None:
+            return self._live_in
+
+        def places(o, out):
+            if isinstance(o, dict):
+                if "l" in o and isinstance(o["l"], int):
+                    out.add(o["l"])
+                    for el in (o.get("p") or ()):
+                        if isinstance(el, (list, tuple)) and el and el[0] == "i":
+                            out.add(el[1])
+                for v in o.values():
+                    places(v, out)
+            elif isinstance(o, (list, tuple)):
+                for v in o:
+                    places(v, out)
+        n = self.nblocks
+        gen, kill = [set() for _ in range(n)], [set() for _ in range(n)]
+        for bi in range(n):
+            blk = self.blocks[bi]
+            g, k = set(), set()
+            # backward through the block: terminator first
+            t = blk["term"]
+            tu = set()
+            td = set()
+            for key, v in t.items():
+                if key == "dest":
+                    if isinstance(v, dict) and not v.get("p"):
+                        td.add(v["l"])
+                    else:
+                        places(v, tu)
+                elif key not in ("callee", "targets", "otherwise", "target", "unwind", "line", "file", "exp", "k"):
+                    places(v, tu)
+            if t["k"] == "return":
+                tu.add(0)
+            g = (g - td) | tu
+            k |= td
+            for s_ in reversed(blk["stmts"]):
+                su, sd = set(), set()
+                if s_["k"] == "assign":
+                    if not s_["p"].get("p"):
+                        sd.add(s_["p"]["l"])
+                    else:
+                        places(s_["p"], su)
+                    places(s_["rv"], su)
+                else:
+                    places(s_, su)
+                g = (g - sd) | su
+                k |= sd
+            gen[bi], kill[bi] = g, k
+        live = [set(gen[i]) for i in range(n)]
+        if self.blocks and any(b_["term"]["k"] == "return" for b_ in self.blocks):
+            pass
+        changed = True
+        while changed:
+            changed = False
+            for bi in reversed(self.rpo if self.rpo else range(n)):
+                out = set()
+                for s2 in self.succ[bi]:
+                    out |= live[s2]
+                if self.blocks[bi]["term"]["k"] == "return":
+                    out.add(0)
+                new = gen[bi] | (out - kill[bi])
+                if new != live[bi]:
+                    live[bi] = new
+                    changed = True
+        self._live_in = [frozenset(x) for x in live]
+        return self._live_in
 
     def short(self):
         return short_name(self.id)
